@@ -139,7 +139,7 @@ def campaigns(tier):
             "hyp",
             evaluate=eval_project,
             strategy=lambda: gen.project_specs(PF_B),
-            n=1500 if q else 40000,
+            n=3000 if q else 40000,
             floor_nontrivial=0.05,
             describe="D1+D2 projects scheduled end to end; ledger invariants",
         ),
@@ -148,7 +148,7 @@ def campaigns(tier):
             "hyp",
             evaluate=eval_project,
             strategy=lambda: gen.project_specs(PF_MIX),
-            n=300 if q else 6000,
+            n=600 if q else 6000,
             describe="finding region F01: forward projects with task-level ALAP anchors sharing resources",
         ),
         Campaign(
